@@ -46,7 +46,8 @@ def schema_text(depth):
     for k in range(1, depth + 1):
         lines.append(f'#l{k}: #site/"l{k}"/id{k}/#KEY <= {prev}')
         prev = f'#l{k}'
-    lines.append(f'#data: #site/"data"/x <= {prev}')
+    # the data name carries the identity (idK) of the key that may sign it: a pattern shared between packet and key rule
+    lines.append(f'#data: #site/"data"/id{depth}/x <= {prev}' if depth >= 1 else f'#data: #site/"data"/_/x <= {prev}')
     return '\n'.join(lines) + '\n'
 
 
@@ -99,13 +100,19 @@ class Hierarchy:
             self.cert_names.append([bytes(c) for c in name])
             self.cert_wires.append(bytes(wire))
 
-    def data(self, rng, suffix, signer_lvl=None, signer=None):
+    def ident(self):
+        return C(b'id' + self.tag.encode())
+
+    def data_name(self, suffix, ident=None):
+        return SITE + [C(b'data'), ident or self.ident(), C(suffix)]
+
+    def data(self, rng, suffix, signer_lvl=None, signer=None, ident=None):
         lvl = self.depth if signer_lvl is None else signer_lvl
         s = signer or self.keys[lvl].signer(self.cert_names[lvl])
-        return bytes(make_data(SITE + [C(b'data'), C(suffix)], MetaInfo(), b'content-' + suffix, s))
+        return bytes(make_data(self.data_name(suffix, ident), MetaInfo(), b'content-' + suffix, s))
 
 
-DEVIATIONS = ['none', 'none', 'hmac-with-public-key', 'wrong-issuer-level', 'forged-signature', 'substituted-key', 'cert-timeout', 'cert-nack', 'unsigned',
+DEVIATIONS = ['none', 'none', 'mismatched-identity', 'hmac-with-public-key', 'wrong-issuer-level', 'forged-signature', 'substituted-key', 'cert-timeout', 'cert-nack', 'unsigned',
               'no-key-locator', 'locator-loop', 'foreign-hierarchy', 'digest-signed']
 
 
@@ -152,6 +159,12 @@ def build_case(rng, depth, dev, link=None):
             # re-issue everything below the replaced level
             for l2 in range(lvl + 1, depth + 1):
                 H.issue(l2, Key(rng, 'ec', H.keys[l2].name), l2 - 1, replace=True)
+    elif dev == 'mismatched-identity':
+        # properly signed by a retrievable, properly issued key - but the data name carries another identity than the key's: the
+        # schema ties the two together through a shared pattern
+        valid = False
+        link = depth + 1
+        data = H.data(rng, suffix, ident=C(b'id-somebody-else'))
     elif dev == 'forged-signature':
         valid = False
         if link == depth + 1:
@@ -174,14 +187,14 @@ def build_case(rng, depth, dev, link=None):
     elif dev == 'unsigned':
         valid = False
         if link == depth + 1:
-            data = bytes(make_data(SITE + [C(b'data'), C(suffix)], MetaInfo(), b'x', None))
+            data = bytes(make_data(H.data_name(suffix), MetaInfo(), b'x', None))
         else:
             r = rc.strict_data(H.cert_wires[link])
             H.cert_wires[link] = rc.make_data(r['name'], content=r['content'], content_type=2, freshness=3600000)
     elif dev == 'no-key-locator':
         valid = False
         if link == depth + 1:
-            data = bytes(make_data(SITE + [C(b'data'), C(suffix)], MetaInfo(), b'x', pkts.VarSigner(8, 8, None)))
+            data = bytes(make_data(H.data_name(suffix), MetaInfo(), b'x', pkts.VarSigner(8, 8, None)))
         else:
             r = rc.strict_data(H.cert_wires[link])
             H.cert_wires[link] = rc.make_data(r['name'], content=r['content'], content_type=2, freshness=3600000, sig_type=3,
@@ -189,7 +202,7 @@ def build_case(rng, depth, dev, link=None):
     elif dev == 'digest-signed':
         valid = False
         if link == depth + 1:
-            data = bytes(make_data(SITE + [C(b'data'), C(suffix)], MetaInfo(), b'x', DigestSha256Signer()))
+            data = bytes(make_data(H.data_name(suffix), MetaInfo(), b'x', DigestSha256Signer()))
         else:
             r = rc.strict_data(H.cert_wires[link])
             import hashlib
@@ -201,7 +214,7 @@ def build_case(rng, depth, dev, link=None):
         from ndn.security.signer.sha256_hmac_signer import HmacSha256Signer
         if link == depth + 1:
             lvl = depth
-            data = bytes(make_data(SITE + [C(b'data'), C(suffix)], MetaInfo(), b'forged', HmacSha256Signer(H.cert_names[lvl], H.keys[lvl].pub)))
+            data = bytes(make_data(H.data_name(suffix), MetaInfo(), b'forged', HmacSha256Signer(H.cert_names[lvl], H.keys[lvl].pub)))
         else:
             lvl = min(link, depth)
             k = Key(rng, 'ec', H.keys[lvl].name)
@@ -289,7 +302,7 @@ def check_single(ctx, rng):
             await asyncio.sleep(0)
             srv = CertServer(face)
             srv.served, srv.unserved, srv.nacked = served, unserved, nacked
-            checker = Checker(compile_lvs(schema_text(depth)), {})
+            checker = make_checker(depth, i // 3)
             storage = MemoryKeyStorage() if i % 2 else None
             try:
                 v = lvs_validator(checker, the_app, H.cert_wires[0], storage) if storage is not None else \
@@ -473,6 +486,18 @@ def storage_of(kind):
     return {'default': None, 'memory': MemoryKeyStorage, 'empty': EmptyKeyStorage, 'evicting': EvictingStorage}[kind]
 
 
+def make_checker(depth, variant):
+    """The compiled schema as it comes from the compiler, or the same model after its optional tag-symbol table was discarded
+    (documented as safe to discard)."""
+    ck = Checker(compile_lvs(schema_text(depth)), {})
+    if variant % 2 == 0:
+        return ck
+    from ndn.app_support.light_versec import binary as bny
+    m = bny.LvsModel.parse(ck.save())
+    m.symbols = []
+    return Checker.load(bytes(m.encode()), {})
+
+
 def leaf_under(rng, H, lvl, tag):
     """One more key at level lvl (its certificate issued by level lvl-1 of H)  -> (key, cert name, cert wire)"""
     k = Key(rng, 'ec', SITE + [C(b'l%d' % lvl), C(b'id' + tag), C(b'KEY'), C(b'k' + tag)])
@@ -484,7 +509,7 @@ def leaf_under(rng, H, lvl, tag):
 def check_same_instance(ctx, rng):
     """Histories on ONE validator instance: what it validated (and cached) before must not change a later verdict; several
     validations in flight at once; the anchor buffer is the caller's and may be reused after construction."""
-    for hi in range(ctx.n(20, 600)):
+    for hi in range(ctx.n(24, 600)):
         depth = rng.randint(1, 3)
         H = Hierarchy(rng, depth, 'cc%02x' % rng.getrandbits(8))
         served = {tuple(n): w_ for n, w_ in zip(H.cert_names[1:], H.cert_wires[1:])}
@@ -502,9 +527,9 @@ def check_same_instance(ctx, rng):
         for j in range(nleaf):
             k, cn, cw = leaf_under(rng, H, depth, b'p%02d' % j)
             served[tuple(cn)] = cw
-            w_ = bytes(make_data(SITE + [C(b'data'), C(b'par%d' % j)], MetaInfo(), b'c', k.signer(cn)))
+            w_ = bytes(make_data(SITE + [C(b'data'), C(b'id' + b'p%02d' % j), C(b'par%d' % j)], MetaInfo(), b'c', k.signer(cn)))
             par.append((w_ if j != 1 else flip_sig(w_), j != 1))
-        plan = ['good-then-ghost', 'ghost-then-good', 'parallel-first', 'parallel-after-good', 'unavailable-then-available'][hi % 5]
+        plan = ['good-then-ghost', 'ghost-then-good', 'parallel-first', 'parallel-after-good', 'unavailable-then-available', 'sibling-cancelled'][hi % 6]
         storage_kind = ['default', 'memory', 'empty', 'evicting'][(hi // 2) % 4]
         anchor_form = ['bytes', 'bytearray-reused', 'memoryview-reused'][hi % 3]
         res = {}
@@ -516,7 +541,7 @@ def check_same_instance(ctx, rng):
             await asyncio.sleep(0)
             srv = CertServer(face)
             srv.served = served
-            checker = Checker(compile_lvs(schema_text(depth)), {})
+            checker = make_checker(depth, hi)
             buf = bytearray(H.cert_wires[0])
             arg = bytes(buf) if anchor_form == 'bytes' else buf if anchor_form == 'bytearray-reused' else memoryview(buf)
             v = lvs_validator(checker, the_app, arg) if storage_kind == 'default' else lvs_validator(checker, the_app, arg, storage_of(storage_kind)())
@@ -532,9 +557,22 @@ def check_same_instance(ctx, rng):
                 out.append((label, ok, exp))
             seq = {'good-then-ghost': [('good', good, True), ('ghost-locator', bad_locator, False), ('forged', forged, False), ('good-again', good, True)],
                    'ghost-then-good': [('ghost-locator', bad_locator, False), ('good', good, True), ('ghost-locator-again', bad_locator, False)],
-                   'parallel-first': [], 'parallel-after-good': [('good', good, True)], 'unavailable-then-available': []}[plan]
+                   'parallel-first': [], 'parallel-after-good': [('good', good, True)], 'unavailable-then-available': [], 'sibling-cancelled': []}[plan]
             for label, wire, exp in seq:
                 await one(label, wire, exp)
+            if plan == 'sibling-cancelled':
+                # two packets of one signer are being validated at once on a cold cache; the caller gives the first validation up while
+                # the certificate is on its way: the other one has a valid, retrievable chain all the same
+                good2 = H.data(rng, b'good2-%d' % hi)
+                t1 = asyncio.ensure_future(one('first-then-cancelled', good, True))
+                await asyncio.sleep(0)
+                t2 = asyncio.ensure_future(one('sibling-of-cancelled', good2, True))
+                await asyncio.sleep(0.004)
+                t1.cancel()
+                await asyncio.gather(t1, t2, return_exceptions=True)
+                out[:] = [o for o in out if o[0] != 'first-then-cancelled']
+                await one('good-afterwards', good, True)
+                await one('forged', forged, False)
             if plan == 'unavailable-then-available' and depth >= 1:
                 # the signer's certificate cannot be had at first (Nack / silence), later it can: the verdict follows what is retrievable
                 # now, not what failed before
